@@ -25,7 +25,7 @@ def run_case_impl(case):
                 ost.last = next((o for o, ll in zip(reversed(out), reversed(case['lines'][:len(out)])) if not ll.startswith('!')), '')
                 out.append(ost.call(l[1:].split()))
             except Exception as e:
-                out.append('FAIL oracle-exception %s: %r' % (l, e))
+                out.append('ORACLE-ERROR %s: %r' % (l, e))
         else:
             out.append(ex.run(l))
     return out
@@ -97,6 +97,7 @@ def process_chunk(cases):
         stats['cases'] += 1
         first_diff = None
         oracle_fails = []
+        oracle_errors = []
         state_hash = hashlib.md5()
         for li, l in enumerate(case['lines']):
             io = impl_out[ci][li]
@@ -105,7 +106,9 @@ def process_chunk(cases):
                 if io.startswith('ok KNOWN'):
                     for kid in io.split()[2].split(','):
                         kinds['known:' + kid] += 1
-                if not io.startswith('ok'):
+                if io.startswith('ORACLE-ERROR'):
+                    oracle_errors.append((li, l, io))
+                elif not io.startswith('ok'):
                     oracle_fails.append((li, l, io))
                 continue
             stats['ops'] += 1
@@ -129,6 +132,9 @@ def process_chunk(cases):
                 distinct.add(h)
         for (li, o) in judge_fail.get(ci, []):
             oracle_fails.append((li, 'judge inv (Lean checkInv on the state observed from the implementation)', o))
+        if oracle_errors and not oracle_fails and first_diff is None:
+            # an oracle could not be evaluated although model and implementation agree: a harness problem
+            failures.append(dict(kind='harness-error', tag=case.get('tag'), case=case, error='oracle raised: %r' % (oracle_errors[:2],)))
         if oracle_fails:
             failures.append(dict(kind='impl-violation', tag=case.get('tag'), case=case, oracle=[list(x) for x in oracle_fails[:5]],
                                  first_difference=first_diff))
@@ -172,12 +178,17 @@ def run_cases(cases, jobs=None, chunk=40, deadline=None):
 # ---------------------------------------------------------------------------------------------------------
 # shrinking a failing case (delta debugging on the op list; keeps `reset`/`new` lines)
 # ---------------------------------------------------------------------------------------------------------
-def still_fails(case, kind):
+def still_fails(case, kind, oracle=None):
     f, _, _, _, _ = process_chunk([case])
-    return any(x['kind'] == kind for x in f)
+    for x in f:
+        if x['kind'] != kind:
+            continue
+        if oracle is None or any(o[1].split()[0] == oracle for o in (x.get('oracle') or [])):
+            return True
+    return False
 
 
-def shrink(case, kind, budget=60):
+def shrink(case, kind, budget=80, oracle=None):
     lines = list(case['lines'])
     n = 0
     gran = max(1, len(lines) // 2)
@@ -188,7 +199,7 @@ def shrink(case, kind, budget=60):
             cand = lines[:i] + lines[i + gran:]
             n += 1
             c2 = dict(case, lines=cand, cmp=None) if case.get('cmp') else dict(case, lines=cand)
-            if cand and still_fails(c2, kind):
+            if cand and still_fails(c2, kind, oracle):
                 lines = cand; changed = True
             else:
                 i += gran
